@@ -12,6 +12,14 @@
  *        producers are threads 0..P-1 (tags (i+1)*100+j), consumers take c_i items each
  *   dbuf <capacity> <nonblocking 0|1> <total> <k1> <k2> ...
  *        reader (thread 0) reads batches until <total> items have arrived; writers as for chan
+ *   v <tag>:<code> ...   (channel) message <tag> carries the pointer value <code> instead of the address of its
+ *        own payload: -1 NULL, -3 (void*)-1, -10-n the small integer n, 9000+k the address of the shared
+ *        harness object k (k < 8; several messages may carry it: repeated values).  The reader reports the
+ *        canonical code of what it received ("got") and dereferences it only when it is a harness object
+ *   bigfill <flags> <requested capacity> <drain>
+ *        single-threaded, WITHOUT the scheduler (the hooks are transparent outside vs_run): fill until FULL,
+ *        read <drain> messages, fill until FULL again, read everything; cursors cross 2^16 for capacities
+ *        > 65536 (field widths).  Output: one summary line
  *   maxtry <n>      a writer gives a message up after n FULL results (0 = never)
  *   sched <spec>    (see vsched.h)
  * Every message points to a harness-owned payload whose field the producer writes just before
@@ -19,6 +27,7 @@
  * Output: the event trace, then summary lines "F ...". */
 #include "vdrv.h"
 #include <unistd.h>
+#include <stdint.h>
 #include "vsched/vsched.h"
 #include "muggle/c/base/err.h"
 #include "muggle/c/sync/channel.h"
@@ -33,29 +42,53 @@ typedef struct { int tag; volatile int field; } payload_t;
 static char scen[16], sched[4096];
 static int wkind, rmode, reqcap, nread, nw, maxtry;
 static int rawflags, cflags;    /* chanflags: the flags argument as given */
+static long bigdrain;
 static int kmsg[MAXW + 1];        /* per writer/producer message count (index 1..nw) */
 static int ctake[MAXW + 1], ncons;
 static int nonblock, total;
 static payload_t pay[MAXW + 1][MAXK];
+#define NSHARED 8
+static payload_t shared[NSHARED];            /* objects several messages may point to (tags 9000+k) */
+static long valcode[MAXW + 1][MAXK];         /* pointer value a message carries; 0x7fffffff = its own payload */
+#define OWNVAL 0x7fffffffL
+
+static void *ptr_of(int w, int i)
+{
+	long c = valcode[w][i];
+	if (c == OWNVAL) return &pay[w][i];
+	if (c == -1) return NULL;
+	if (c == -3) return (void *)(intptr_t)-1;
+	if (c <= -10 && c > -10 - 4096) return (void *)(intptr_t)(-10 - c);
+	if (c >= 9000 && c < 9000 + NSHARED) return &shared[c - 9000];
+	return &pay[w][i];
+}
 
 static muggle_channel_t chan;
 static muggle_array_blocking_queue_t abq;
 static muggle_double_buffer_t dbuf;
 static int n_acc, n_del;
 
+static int is_object(void *p)
+{
+	char *b = (char *)pay, *c = (char *)shared, *q = (char *)p;
+	if (q >= b && q < b + sizeof(pay)) return (unsigned long)(q - b) % sizeof(payload_t) == 0;
+	if (q >= c && q < c + sizeof(shared)) return (unsigned long)(q - c) % sizeof(payload_t) == 0;
+	return 0;
+}
+
 static int payload_id(void *p)
 {
-	char *b = (char *)pay, *q = (char *)p;
 	if (p == NULL) return -1;
-	if (q < b || q >= b + sizeof(pay)) return -2;
-	if ((unsigned long)(q - b) % sizeof(payload_t) != 0) return -2;
+	if (p == (void *)(intptr_t)-1) return -3;
+	if ((uintptr_t)p < 4096) return -10 - (int)(uintptr_t)p;
+	if (!is_object(p)) return -2;
 	return ((payload_t *)p)->tag;
 }
 
 static void note_got(void *p)
 {
 	int id = payload_id(p);
-	int fld = id >= 0 ? ((payload_t *)p)->field : -1;
+	int fld = is_object(p) ? ((payload_t *)p)->field : -1;
 	vs_note("got %d", id);
 	vs_note("fld %d", fld);
 	n_del++;
@@ -80,7 +113,7 @@ static void chan_writer(void *arg)
 		pl->field = pl->tag + 1000;
 		vs_note("put %d", pl->tag);
 		for (;;) {
-			int rc = muggle_channel_write(&chan, pl);
+			int rc = muggle_channel_write(&chan, ptr_of(w, i));
 			if (rc == MUGGLE_OK) { n_acc++; vs_note("ok %d", pl->tag); break; }
 			if (rc != MUGGLE_ERR_FULL) { vs_note("err %d", rc); break; }
 			vs_note("full %d", pl->tag);
@@ -147,6 +180,7 @@ static void dbuf_writer(void *arg)
 static void case_begin(void)
 {
 	scen[0] = 0; strcpy(sched, "rand 1 50 0 0"); nw = 0; ncons = 0; maxtry = 0; rawflags = 0; cflags = 0;
+	for (int w = 0; w <= MAXW; w++) for (int i = 0; i < MAXK; i++) valcode[w][i] = OWNVAL;
 }
 
 static int kind_of(const char *s)
@@ -166,6 +200,14 @@ static void case_line(char *line)
 	char *p = line + used;
 	if (strcmp(op, "sched") == 0) { while (*p == ' ') p++; snprintf(sched, sizeof(sched), "%s", p); return; }
 	if (strcmp(op, "maxtry") == 0) { sscanf(p, "%d", &maxtry); return; }
+	if (strcmp(op, "v") == 0) {
+		int tg; long c;
+		while (sscanf(p, " %d:%ld%n", &tg, &c, &used) == 2) {
+			p += used;
+			if (tg >= 0 && tg / 100 <= MAXW && tg % 100 < MAXK) valcode[tg / 100][tg % 100] = c;
+		}
+		return;
+	}
 	if (strcmp(op, "chan") == 0) {
 		char a[16], b[16];
 		if (sscanf(p, "%15s %15s %d %d%n", a, b, &reqcap, &nread, &used) != 4) return;
@@ -183,6 +225,10 @@ static void case_line(char *line)
 		int k;
 		while (nw < MAXW && sscanf(p, "%d%n", &k, &used) == 1) { p += used; kmsg[++nw] = k; }
 		strcpy(scen, "chan");
+	} else if (strcmp(op, "bigfill") == 0) {
+		if (sscanf(p, "%d %d %ld", &cflags, &reqcap, &bigdrain) != 3) return;
+		nw = 1;
+		strcpy(scen, "bigfill");
 	} else if (strcmp(op, "abq") == 0) {
 		int np, k;
 		if (sscanf(p, "%d %d%n", &reqcap, &np, &used) != 2) return;
@@ -211,13 +257,41 @@ static void finish(int st)
 	}
 }
 
+/* single-threaded fill / drain of a large ring; message k is the opaque value 4096 + k */
+static void run_bigfill(void)
+{
+	if (reqcap <= 0 || reqcap > (1 << 18) || bigdrain < 0) { printf("F badcase\n"); return; }
+	int rc = muggle_channel_init(&chan, (muggle_sync_t)reqcap, cflags);
+	printf("F init %d cap=%u\n", rc, (unsigned)chan.capacity);
+	if (rc != 0) return;
+	long sent = 0, got = 0, fill1 = 0, fill2 = 0, bad = -1, limit = 4L * (1 << 18);
+	while (sent < limit && muggle_channel_write(&chan, (void *)(uintptr_t)(4096 + sent)) == MUGGLE_OK) { sent++; fill1++; }
+	int again = muggle_channel_write(&chan, (void *)(uintptr_t)(4096 + sent));   /* still FULL */
+	for (long k = 0; k < bigdrain && got < sent; k++) {
+		void *p = muggle_channel_read(&chan);
+		if (bad < 0 && p != (void *)(uintptr_t)(4096 + got)) bad = got;
+		got++;
+	}
+	while (sent < limit && muggle_channel_write(&chan, (void *)(uintptr_t)(4096 + sent)) == MUGGLE_OK) { sent++; fill2++; }
+	while (got < sent) {
+		void *p = muggle_channel_read(&chan);
+		if (bad < 0 && p != (void *)(uintptr_t)(4096 + got)) bad = got;
+		got++;
+	}
+	printf("F big fill1=%ld refused=%d fill2=%ld read=%ld bad=%ld wcur=%u rcur=%u\n", fill1, again != MUGGLE_OK, fill2, got, bad,
+	       (unsigned)chan.write_cursor, (unsigned)chan.read_cursor);
+	muggle_channel_destroy(&chan);
+}
+
 static void case_end(void)
 {
+	if (strcmp(scen, "bigfill") == 0) { run_bigfill(); return; }
 	int bad = !scen[0] || nw <= 0 || nw > MAXW || reqcap <= 0 || reqcap > 64;
 	for (int i = 1; i <= nw && !bad; i++) if (kmsg[i] < 0 || kmsg[i] > MAXK) bad = 1;
 	if (bad) { printf("F badcase\n"); return; }
 	for (int w = 0; w <= MAXW; w++)
 		for (int i = 0; i < MAXK; i++) { pay[w][i].tag = w * 100 + i; pay[w][i].field = 0; }
+	for (int k = 0; k < NSHARED; k++) { shared[k].tag = 9000 + k; shared[k].field = 9000 + k + 1000; }
 	n_acc = n_del = 0;
 	vs_reset();
 	vs_set_schedule(sched);
